@@ -32,9 +32,34 @@ func (e *Engine) replay(vc *VC, ob *Obligation, o SolveOpts, outDir string) *Rep
 	if a := ct.Witness[suffix+"|args"]; a != "" {
 		args = strings.Fields(a)
 	}
+	if nstr, ok := ct.Witness[suffix+"|expect-varies"]; ok {
+		// nondeterminism: the same input must give the same output; run it several times
+		n := 8
+		fmt.Sscanf(nstr, "%d", &n)
+		seen := map[string]bool{}
+		var first string
+		for i := 0; i < n; i++ {
+			_, out := e.runWitness(src, o, args)
+			if i == 0 {
+				first = out
+			}
+			seen[out] = true
+		}
+		rr.Witness = src
+		if len(first) > 1500 {
+			first = first[:1500]
+		}
+		rr.Output = first
+		rr.Confirmed = len(seen) > 1
+		rr.Outcome = fmt.Sprintf("witness: %d runs of the rebuilt binary on the same input gave %d distinct outputs", n, len(seen))
+		return rr
+	}
 	outcome, out := e.runWitness(src, o, args)
 	rr.Witness = src
 	rr.Output = out
+	if len(rr.Output) > 3000 {
+		rr.Output = rr.Output[:3000]
+	}
 	rr.Outcome = "witness: " + outcome
 	if exp, ok := ct.Witness[suffix+"|expect"]; ok {
 		// the witness demonstrates the violation when the real binary prints the expected text
@@ -79,9 +104,6 @@ func (e *Engine) runWitness(src string, o SolveOpts, args []string) (string, str
 		return "timeout", "killed after 20 s"
 	}
 	so := string(out)
-	if len(so) > 3000 {
-		so = so[:3000]
-	}
 	switch {
 	case strings.Contains(so, "panic:") || strings.Contains(so, "goroutine "):
 		return "panic", so
